@@ -2,6 +2,7 @@ CONSTANTS
   Families = {"pql", "msg", "env"}
   Entries = {}
   SrvEntries = {}
+  CtlEntries = {}
   PqlEntries = {"api_query"}
   EnvEntries = {"api_import_env", "http_import_env"}
   MsgEntries = {"api_msg", "http_msg", "gossip_msg", "gossip_merge"}
